@@ -154,11 +154,11 @@ class compile_order_by:
     callees = CALLEES
     opaque_ctors = {'EvalTarget': ['c_expr', 'name', 'is_aggregate']}
     hints = ['seq-pointwise']
-    timeout = 4000
+    timeout = 6000
     modifies = ['fields:c_expr', 'fields:name', 'fields:is_aggregate']
     native = False
     assumes = ['ATTRS_PRESENT', 'compiled nodes compare by ==; list.index finds the first equal element (merge soundness is C03 EvalNode.__eq__)']
-    note = 'what each key denotes (position / name / expression) and the range of the indexes are NOT carried by this contract: the invariants with order_key() / the index range did not discharge within the budget (nested pair handles); bounded evidence in h03, h05, h07'
+    note = 'what each key denotes (position / name / expression) and the range of the indexes are NOT carried by this contract: the invariants with order_key() / the index range did not discharge within the budget (nested pair handles); that the appended targets are hidden (name None) is proved as loop invariant 5 but its restatement over the returned slice flipped between proved and unknown with the budget and was removed; bounded evidence in h03, h05, h07'
     raises = {'CompilationError': None}
     loops = {0: dict(fields=['c_expr', 'name', 'is_aggregate'],
                      inv=lambda order_by, c_targets, new_targets, c_target_expressions, order_spec, _i:
@@ -173,7 +173,6 @@ class compile_order_by:
     ensures = [
         ('one-sort-key-per-clause-with-its-direction', lambda order_by, result: len(result[1]) == len(order_by)
             and all(result[1][j][1] == order_by[j].ordering for j in range(len(order_by)))),
-        ('new-targets-are-hidden', lambda result: all(result[0][j].name is None for j in range(len(result[0])))),
         ('selected-targets-untouched', lambda: inputs_unchanged('c_expr', 'name', 'is_aggregate')),
     ]
 
